@@ -26,8 +26,9 @@ Branches == <<
   O(<<[k |-> "p", s |-> [type |-> <<"string">>]]>>, <<"p">>),                                          \* E  p string
   [required |-> <<"q">>],                                                                              \* F  required only
   O(<<[k |-> "r", s |-> [type |-> <<"boolean">>]]>>, <<>>),                                           \* G  no validator
-  O(<<[k |-> "q", s |-> [type |-> <<"string">>, maxLength |-> 1]]>>, <<>>) >>                          \* H  q short, optional
-NB == 8
+  O(<<[k |-> "q", s |-> [type |-> <<"string">>, maxLength |-> 1]]>>, <<>>),                            \* H  q short, optional
+  O(<<[k |-> "q", s |-> [type |-> <<"string">>, minLength |-> 2]]>>, <<"q">>) >>                       \* I  q long: another KEYWORD on B's property
+NB == 9
 Lists == {<<i>> : i \in 1..NB} \cup {<<i, j>> : i \in 1..NB, j \in 1..NB} \cup {<<i, j, k>> : i \in 1..NB, j \in 1..NB, k \in 1..NB}
 Distinct(l) == \A i, j \in DOMAIN l : i # j => l[i] # l[j]
 
@@ -39,7 +40,7 @@ Docs == LET mk(i, j, k) == JObj( (IF i = 1 THEN <<>> ELSE <<KV("p", PV[i])>>) \o
         IN SetToSeq({mk(i, j, k) : i \in DOMAIN PV, j \in DOMAIN QV, k \in DOMAIN RV})
 Wrap(x) == JObj(<<KV("x", x)>>)
 
-DefName(i) == <<"BA", "BB", "BC", "BD", "BE", "BF", "BG", "BH">>[i]
+DefName(i) == <<"BA", "BB", "BC", "BD", "BE", "BF", "BG", "BH", "BI">>[i]
 Unit(c, f, l) ==
   LET byRef(pos) == f = "ref" \/ (f = "firstref" /\ pos = 1)
       br == [pos \in DOMAIN l |-> IF byRef(pos) THEN [ref |-> [k |-> "defs", n |-> DefName(l[pos])]] ELSE Branches[l[pos]]]
